@@ -100,6 +100,21 @@ def srcFlags : IsoFlags :=
     entryClears := RQ.Gen.runEntriesClearCaches.all (·.2) && RQ.Gen.runEntriesClearCaches.length == 3
     envReplaced := RQ.Gen.envSingletonReplaced }
 
+/-! ### strategies given as source code (run_file / run_code): the namespace they are exec'ed into -/
+
+/-- one source-code run: `shared` is the API module's namespace as earlier runs left it, `defs` the names the strategy source defines at module level.
+Returns the names the run's scope holds (where `Strategy` looks the optional hooks up) and the shared namespace afterwards. -/
+def scopeRun (copied : Bool) (shared defs : List String) : List String × List String :=
+  if copied then (shared ++ defs, shared) else (shared ++ defs, shared ++ defs)
+
+/-- the scope of the LAST of a sequence of source-code runs in one process -/
+def scopeAfter (copied : Bool) (shared : List String) : List (List String) → List String → List String
+  | [], defs => (scopeRun copied shared defs).1
+  | h :: rest, defs => scopeAfter copied (scopeRun copied shared h).2 rest defs
+
+/-- `create_base_scope` of the CURRENT source hands out a copy (regenerated by harness/extract.py) -/
+def srcScopeCopied : Bool := RQ.Gen.baseScopeCopied
+
 /-- renumbering of identifiers by first appearance (how traces of different processes are compared: order ids start at the wall clock) -/
 def renumber (ids : List Nat) : List Nat :=
   let rec go (seen : List Nat) : List Nat → List Nat
